@@ -105,6 +105,25 @@ class ReaperAnchors:
             t, v = n.targets[0], n.value
             if isinstance(t, ast.Name) and isinstance(v, ast.Subscript) and fi.canon(v.value) == 'self._pool':
                 self.worker = t.id
+        if self.worker is None:
+            # `for worker in self._pool` / `for i, worker in enumerate(self._pool)` / reversed(...) / list(...)
+            for n in walk_own(fi.node):
+                if not isinstance(n, ast.For):
+                    continue
+                it, wrapped = n.iter, []
+                while isinstance(it, ast.Call) and isinstance(it.func, ast.Name) and len(it.args) >= 1 and \
+                        it.func.id in ('enumerate', 'reversed', 'list', 'tuple'):
+                    wrapped.append(it.func.id)
+                    it = it.args[0]
+                if fi.canon(it) != 'self._pool':
+                    continue
+                t = n.target
+                if 'enumerate' in wrapped and isinstance(t, ast.Tuple) and len(t.elts) == 2:
+                    t = t.elts[1]
+                if isinstance(t, ast.Name) and any(isinstance(x, ast.Attribute) and x.attr == 'exitcode' and
+                                                   isinstance(x.value, ast.Name) and x.value.id == t.id
+                                                   for b in n.body for x in ast.walk(b)):
+                    self.worker = t.id
         q.need(self.worker, '_join_exited_workers: worker variable (self._pool[i]) not found')
         W = self.worker
         for n in walk_own(fi.node):
@@ -125,8 +144,11 @@ class ReaperAnchors:
                     self.cleaned = n.targets[0].value.id
                 elif self.exitcode and ast.unparse(n.value) == self.exitcode:
                     self.exitcodes = n.targets[0].value.id
-        for nm in ('cleaned', 'exitcodes', 'exitcode', 'all_pids', 'now'):
+        for nm in ('cleaned', 'exitcodes', 'exitcode', 'now'):
             q.need(getattr(self, nm), '_join_exited_workers: local in the role `%s` not found' % nm)
+        # the list of live pids is what one rule (R04.4, owner really gone) is about: its absence is that rule's
+        # finding, not a missing anchor
+        self.all_pids = self.all_pids or '<no list of live pids>'
 
 
 class WorkloopAnchors:
